@@ -18,6 +18,9 @@ import KafkaVerif.Lemmas.WriterCloseDetail
 import KafkaVerif.Lemmas.WriterCloseProgress
 import KafkaVerif.Lemmas.WriterCloseMeasure
 import KafkaVerif.Lemmas.GroupCloseProgress
+import KafkaVerif.Lemmas.FetcherDeadlines
+import KafkaVerif.Lemmas.GroupDeadlines
+import KafkaVerif.Lemmas.ReaderCloseSilent
 
 namespace KV.C09
 open KV.WriterClose
@@ -875,5 +878,106 @@ theorem reader_system_close_progress_full (c : Group.Cfg) (s : ReaderCloseSystem
     ∃ e, (ReaderCloseSystem.internal e = true ∨ (∃ gi acc, e = .group (.gStart gi acc)) ∨
           ∃ ge, e = .group ge ∧ GroupClose.genEv ge = true) ∧ (ReaderCloseSystem.step c s e).isSome = true :=
   GroupClose.system_progress_full c s hi hm
+
+end KV.C09
+
+/-! ## Blocking network operations of a fetcher and their deadlines (Model/FetcherDeadlines.lean; round 6, C09-m8) -/
+namespace KV.C09
+open KV.FetcherLife
+
+/-- the deadline facts of the source: regenerated by go/extract closeproto from reader.go on every run -/
+def sourceNet : NetFacts :=
+  ⟨Gen.CloseFacts.fetcherOffsetRequestsHaveDeadline, Gen.CloseFacts.fetcherReadHasDeadline⟩
+
+/-- **fetcher_never_blocked_silent_broker** — with a deadline on every blocking network operation of `(*reader).run`
+(the offsets requests of `initialize` and of the OffsetOutOfRange recovery: `SetDeadline`; the fetch: `SetReadDeadline`)
+a cancelled fetcher that has not exited always has an enabled control step even when the broker has stopped answering
+(`stepSilent`: the return of an operation is possible only through its deadline); it is `cancel` only when the pending
+sleep really sees the context done, inside a network operation it is that operation's failed return.  Every such step
+lowers `rank` (≤ 10 steps). -/
+theorem fetcher_never_blocked_silent_broker (f : NetFacts) (ho : f.offsets = true) (hr : f.read = true)
+    (s : FetcherLife.State) (hc : s.cancelled = true) (hx : s.pc ≠ .exited) :
+    (∃ e, e.control = true ∧ (stepSilent f s e).isSome = true ∧ (e = .cancel → s.sampled = true)) ∧
+    (∀ e s', e.control = true → stepSilent f s e = some s' → FetcherLife.rank s' < FetcherLife.rank s) :=
+  ⟨progress_after_cancel_silent f ho hr s hc hx,
+   fun e s' he h => (terminates_after_cancel_silent f s s' e hc he h).1⟩
+
+/-- **fetcher_never_blocked_for_source** — the same for the code as it is: the two deadline facts are the ones
+extracted from reader.go, so replacing `r.readOffsets(conn)` by a bare `conn.ReadOffsets()` (C09-m8), or dropping a
+`SetDeadline` / `SetReadDeadline`, breaks this theorem. -/
+theorem fetcher_never_blocked_for_source (s : FetcherLife.State) (hc : s.cancelled = true) (hx : s.pc ≠ .exited) :
+    ∃ e, e.control = true ∧ (stepSilent sourceNet s e).isSome = true ∧ (e = .cancel → s.sampled = true) :=
+  progress_after_cancel_silent sourceNet (by decide) (by decide) s hc hx
+
+/-- **fetcher_blocked_without_deadline** — the converse, which is the hang of C09-m8: blocked in a network operation
+that no deadline bounds, against a silent broker the fetcher has no step left (its context being cancelled changes
+nothing: a blocked socket read does not observe it), so `Reader.Close` waits in `r.join.Wait()` for ever. -/
+theorem fetcher_blocked_without_deadline (f : NetFacts) (s : FetcherLife.State) (b : NetFacts → Bool)
+    (hb : blockedIn s = some b) (hf : b f = false) (e : FetcherLife.Event) (he : e.control = true)
+    (hne : e ≠ .cancel ∨ s.pc = .oor) : stepSilent f s e = none :=
+  blocked_without_deadline f s b hb hf e he hne
+
+/-- the schedule of C09-m8 in the model: fetch answered OffsetOutOfRange, the follow-up offsets request unanswered, the
+context cancelled by Close — with the helper's deadline the request fails and the fetcher exits; without it nothing
+is enabled -/
+example : (FetcherLife.run {} [.top 0, .init true, .iter, .read .outOfRange, .ctxCancel]).bind
+    (fun s => (stepSilent ⟨true, true⟩ s (.offsets false)).bind fun s1 => (stepSilent ⟨true, true⟩ s1 (.top 1)).bind
+      fun s2 => (stepSilent ⟨true, true⟩ s2 .cancel).map (·.pc)) = some .exited := by decide
+example : (FetcherLife.run {} [.top 0, .init true, .iter, .read .outOfRange, .ctxCancel]).bind
+    (fun s => stepSilent ⟨false, true⟩ s (.offsets false)) = none := by decide
+
+end KV.C09
+
+/-! ## Coordinator requests and their deadlines (Model/GroupDeadlines.lean; round 6) -/
+namespace KV.C09
+
+/-- **group_run_progress_silent_coordinator** — `group_run_progress` against a coordinator that accepts connections and
+reads requests but never answers (`stepSilentG`: an answer is impossible, a request fails locally only through its
+deadline): with a deadline on every coordinator request the `run` goroutine of a closed group — or, inside
+`gen.close()`, a function of the generation it waits for — still has an enabled step in every reachable state until
+`run` has exited; where it waits for the coordinator, the step is the request's failure. -/
+theorem group_run_progress_silent_coordinator (c : Group.Cfg) (s : Group.St) (hr : Group.Reachable c s)
+    (hc : s.closedCG = true) (hx : s.pc ≠ .exited) :
+    ∃ e, (e.runLoop = true ∨ (∃ g acc, e = .gStart g acc) ∨ GroupClose.genEvS e = true) ∧
+      (Group.stepSilentG true c s e).isSome = true :=
+  GroupClose.run_progress_full_silent c s hr hc hx
+
+/-- **group_run_progress_for_source** — the same with the deadline fact extracted from consumergroup.go (every request
+method of `timeoutCoordinator` arms `conn.SetDeadline` before it delegates): dropping one of them breaks this theorem. -/
+theorem group_run_progress_for_source (c : Group.Cfg) (s : Group.St) (hr : Group.Reachable c s)
+    (hc : s.closedCG = true) (hx : s.pc ≠ .exited) :
+    ∃ e, (e.runLoop = true ∨ (∃ g acc, e = .gStart g acc) ∨ GroupClose.genEvS e = true) ∧
+      (Group.stepSilentG Gen.CloseFacts.coordinatorCallsHaveDeadline c s e).isSome = true := by
+  have h : Gen.CloseFacts.coordinatorCallsHaveDeadline = true := by decide
+  rw [h]
+  exact GroupClose.run_progress_full_silent c s hr hc hx
+
+/-- **group_run_blocked_without_deadline** — the converse: waiting for the answer of FindCoordinator, JoinGroup,
+SyncGroup or LeaveGroup without a deadline, against a silent coordinator `run` has no step left; `ConsumerGroup.Close`
+(and `Reader.Close` behind it) waits for ever. -/
+theorem group_run_blocked_without_deadline (c : Group.Cfg) (s : Group.St)
+    (hp : (∃ lv, s.pc = .coord 1 lv) ∨ s.pc = .joining ∨ s.pc = .syncing ∨ ∃ a, s.pc = .leaveCall a)
+    (e : Group.Ev) (he : e.runLoop = true) : Group.stepSilentG false c s e = none :=
+  GroupClose.run_blocked_without_deadline c s hp e he
+
+end KV.C09
+
+/-! ## Reader.Close as a system against a silent broker and coordinator (Lemmas/ReaderCloseSilent.lean) -/
+namespace KV.C09
+
+/-- **reader_system_close_progress_for_source** — `reader_system_close_progress_full` when broker and coordinator have
+stopped answering (`stepSilentSys`: a network operation returns only through its deadline, and then as a failure), for
+the code as it is: the fetchers' deadline facts and the coordinator's are the ones extracted from reader.go /
+consumergroup.go.  While Reader.Close waits after the mark some component can always move — a cancelled fetcher leaves
+its blocked request at the deadline, `run` leaves its coordinator request at the deadline, and so do the generation's
+functions.  C09-m8 (and any request that loses its deadline) breaks this theorem. -/
+theorem reader_system_close_progress_for_source (c : Group.Cfg) (s : ReaderCloseSystem.State)
+    (hi : ReaderCloseSystem.Inv c s) (hm : s.close = 2) :
+    ∃ e, (ReaderCloseSystem.internal e = true ∨ (∃ gi acc, e = .group (.gStart gi acc)) ∨
+          ∃ ge, e = .group ge ∧ GroupClose.genEvS ge = true) ∧
+      (GroupClose.stepSilentSys sourceNet Gen.CloseFacts.coordinatorCallsHaveDeadline c s e).isSome = true := by
+  have h : Gen.CloseFacts.coordinatorCallsHaveDeadline = true := by decide
+  rw [h]
+  exact GroupClose.system_progress_silent sourceNet (by decide) (by decide) c s hi hm
 
 end KV.C09
